@@ -17,9 +17,10 @@ let world16 = [ { rbase = shl 6 44; rsize = pow2 16 }; { rbase = shl 7 44; rsize
 (* op name suffix selects the configuration *)
 let split_op (op : string) : string * string =
   let n = String.length op in
-  if n > 2 && (String.sub op (n - 2) 2 = "16" || String.sub op (n - 2) 2 = "32" || String.sub op (n - 2) 2 = "64")
+  if n > 2 && (String.sub op (n - 2) 2 = "16" || String.sub op (n - 2) 2 = "32" || String.sub op (n - 2) 2 = "64" || String.sub op (n - 2) 2 = "3f")
   then (String.sub op 0 (n - 2), String.sub op (n - 2) 2) else (op, "32")
-let world cfg = if cfg = "16" then world16 else world32
+(* "3f": verif32 whose same-sandbox test goes through RLBox's finder, with exactly ONE sandbox alive *)
+let world cfg = if cfg = "16" then world16 else if cfg = "3f" then [List.hd world32] else world32
 let lab cfg = if cfg = "16" then labi_lp32_16 else if cfg = "64" then labi_lp32_64 else labi_lp32
 let total cfg = if cfg = "16" then pow2 16 else pow2 32
 
